@@ -159,7 +159,7 @@ Pool == <<
   [src |-> "~",                   kind |-> "nonstr",  value |-> ""],
   [src |-> "null",                kind |-> "nonstr",  value |-> ""] >>
 
-Styles == [ lead : {"", "# manifest\n", "\n\n# c\n"}, keyfirst : {"schema", "contents"}, squote : {"'1.2'", "\"1.2\""},
+Styles == [ lead : {"", "# manifest\n", "\n\n# c\n"}, keyfirst : {"schema", "contents"}, squote : {"'1.2'", "\"1.2\"", "'1.1'"},        \* (the last: a version the reader does not support - one more error, no fewer)
             seq : {"block0", "block2", "block4", "flow"}, between : {"", "# note"} ]
 
 RECURSIVE Rep(_, _)
@@ -199,11 +199,12 @@ ManifestRec(es, sty) ==
   LET r == Render(es, sty)
       bad == { i \in 1..Len(es) : es[i].kind # "ok" }
       good == SelectSeq([i \in 1..Len(es) |-> i], LAMBDA i : es[i].kind = "ok")
-  IN [rec |-> "manifest", text |-> r.text, ok |-> bad = {},
+      badschema == sty.squote = "'1.1'"
+  IN [rec |-> "manifest", text |-> r.text, ok |-> bad = {} /\ ~badschema,
       schema |-> [value |-> "1.2", line |-> r.schema[1], col |-> r.schema[2]],
       contents |-> [line |-> r.contents[1], col |-> r.contents[2]],
       items |-> [k \in 1..Len(good) |-> [value |-> es[good[k]].value, line |-> r.items[good[k]][1], col |-> r.items[good[k]][2]]],
-      errors |-> { <<r.items[i][1], r.items[i][2], es[i].kind>> : i \in bad }]
+      errors |-> { <<r.items[i][1], r.items[i][2], es[i].kind>> : i \in bad } \cup (IF badschema THEN { <<r.schema[1], r.schema[2], "schema">> } ELSE {})]
 
 ManifestInit == st = [es |-> <<>>, sty |-> CHOOSE s \in Styles : TRUE, done |-> FALSE]
 ManifestNext == /\ ~st.done
@@ -259,5 +260,5 @@ OddNext == st > 0 /\ st' = 0 - st /\ PrintT(ToJson([rec |-> "odd", text |-> OddM
 OddOK == TRUE
 \* OneErrorPerOffender at the design level: the expected error set has one element per offending entry (positions are distinct)
 OneErrorPerOffender == st.done => LET r == ManifestRec(st.es, st.sty) IN
-                          Cardinality(r.errors) = Cardinality({ i \in 1..Len(st.es) : st.es[i].kind # "ok" })
+                          Cardinality(r.errors) = Cardinality({ i \in 1..Len(st.es) : st.es[i].kind # "ok" }) + (IF st.sty.squote = "'1.1'" THEN 1 ELSE 0)
 =============================================================================
